@@ -1,6 +1,6 @@
 CONSTANTS
   Vocab <- VocabC
-  MaxSegs = 6
+  MaxSegs = 5
 INIT Init
 NEXT Next
 INVARIANT Consistent
